@@ -40,6 +40,40 @@ M = [
  ('H23', 'C13', 'ciw/arrival_node.py', "            rnd_num = random()\n", "            rnd_num = random() ** 1.3\n"),
  ('H21', 'C16', 'ciw/simulation.py', "        next_active_node = self.find_next_active_node()\n        self.current_time = next_active_node.next_event_date\n\n        if progress_bar:\n            self.progress_bar = tqdm.tqdm(total=max_simulation_time)\n",
                                       "        next_active_node = self.find_next_active_node()\n        self.current_time = next_active_node.next_event_date\n        self.statetracker.timestamp()\n        for nd in self.transitive_nodes: nd.update_next_event_date()\n        next_active_node = self.find_next_active_node()\n\n        if progress_bar:\n            self.progress_bar = tqdm.tqdm(total=max_simulation_time)\n"),
+ # ---- second batch: aimed at oracle clauses that no other mutant had exercised (clause validation, tests not run) ----
+ ('H30', 'C07', 'ciw/node.py', "        if next_node.number_of_individuals < next_node.node_capacity:\n            self.release(next_individual, next_node)\n",
+                               "        if next_node.number_of_individuals < next_node.node_capacity - (1 if next_node.node_capacity > 2 else 0):\n            self.release(next_individual, next_node)\n"),
+ ('H31', 'C07', 'ciw/node.py', "        if next_node.number_of_individuals < next_node.node_capacity:\n            self.release(next_individual, next_node)\n",
+                               "        if next_node.number_of_individuals <= next_node.node_capacity:\n            self.release(next_individual, next_node)\n"),
+ ('H32', 'C09', 'ciw/routing/routing.py', "        node_index = ciw.random_choice(self.destinations, self.probs)\n        return self.simulation.nodes[node_index]\n",
+                                          "        node_index = ciw.random_choice(self.destinations, self.probs)\n        if ind.id_number % 9 == 0: node_index = self.destinations[0]\n        return self.simulation.nodes[node_index]\n"),
+ ('H33', 'C09', 'ciw/routing/routing.py', "        next_node_index = next(self.generator)\n", "        next_node_index = next(self.generator)\n        if ind.id_number % 7 == 0: next_node_index = next(self.generator)\n"),
+ ('H34', 'C09', 'ciw/routing/routing.py', "        return self.simulation.nodes[self.to]\n", "        return self.simulation.nodes[self.to if ind.id_number % 11 else -1]\n"),
+ ('H35', 'C10', 'ciw/arrival_node.py', "        return original + increment\n", "        return original + increment + (1e-9 if original > 5 else 0)\n"),
+ ('H36', 'C10', 'ciw/node.py', "                ind.service_end_date = self.now + ind.service_time\n                self.number_in_service += 1\n",
+                               "                ind.service_end_date = self.now + ind.service_time * (1.001 if ind.id_number % 5 == 0 else 1)\n                self.number_in_service += 1\n"),
+ ('H37', 'C11', 'ciw/node.py', "            least_priority = max([ind.priority_class for ind in in_service], default=individual.priority_class)\n",
+                               "            least_priority = min([ind.priority_class for ind in in_service], default=individual.priority_class)\n"),
+ ('H38', 'C12', 'ciw/node.py', "        if newly_free_server is not None and newly_free_server in self.servers:\n            if self.number_interrupted_individuals > 0:\n                self.begin_interrupted_individuals_service(newly_free_server)\n            else:\n                ind = self.choose_next_customer()\n                if ind is not None:\n                    self.attach_server(newly_free_server, ind)\n                    ind.service_start_date = self.now\n                    self.give_individual_a_service_time(ind)\n                    ind.service_end_date = self.increment_time(ind.service_start_date, ind.service_time)\n                    self.number_in_service += 1\n                    self.reset_class_change(ind)\n                    newly_free_server.next_end_service_date = ind.service_end_date\n",
+                               "        if newly_free_server is not None and newly_free_server in self.servers:\n            if self.number_interrupted_individuals > 0:\n                self.begin_interrupted_individuals_service(newly_free_server)\n            else:\n                ind = self.choose_next_customer()\n                if ind is not None:\n                    self.attach_server(newly_free_server, ind)\n                    ind.service_start_date = self.now\n                    self.give_individual_a_service_time(ind)\n                    ind.service_end_date = self.increment_time(ind.service_start_date, ind.service_time)\n                    self.number_in_service += 1\n                    self.reset_class_change(ind)\n                    newly_free_server.next_end_service_date = ind.service_end_date\n        elif newly_free_server is not None and self.schedule is not None and not self.slotted and self.c == 0:\n            self.servers.append(newly_free_server)\n"),
+ ('H39', 'C12', 'ciw/schedules.py', "            date = offset + boundaries[index % num_boundaries] + ((index) // num_boundaries * self.cyclelength)\n",
+                                    "            date = offset + boundaries[index % num_boundaries] + ((index) // num_boundaries * self.cyclelength) + (0.013 if index > 4 else 0.0)\n"),
+ ('H40', 'C14', 'ciw/simulation.py', "        while self.current_time < max_simulation_time:\n", "        while self.current_time < max_simulation_time - 0.5:\n"),
+ ('H41', 'C17', 'ciw/trackers/state_tracker.py', "        if current_hash_state != self.history[-1][1]:\n            self.history.append([self.simulation.current_time, current_hash_state])\n",
+                                                 "        if current_hash_state != self.history[-1][1] or len(self.history) % 5 == 0:\n            self.history.append([self.simulation.current_time, current_hash_state])\n"),
+ ('H42', 'C02', 'ciw/simulation.py', "            self.statetracker.timestamp()\n\n            if progress_bar:\n                remaining_time = max_simulation_time - self.progress_bar.n\n                time_increment = next_active_node.next_event_date - self.current_time\n                self.progress_bar.update(min(time_increment, remaining_time))\n\n            self.current_time = next_active_node.next_event_date\n",
+                                     "            self.statetracker.timestamp()\n\n            if progress_bar:\n                remaining_time = max_simulation_time - self.progress_bar.n\n                time_increment = next_active_node.next_event_date - self.current_time\n                self.progress_bar.update(min(time_increment, remaining_time))\n\n            self.current_time = next_active_node.next_event_date + (1e-7 if self.current_time > 6 and not isinstance(next_active_node.next_event_date, type(None)) and type(next_active_node.next_event_date) is float else 0)\n"),
+ ('H43', 'C02', 'ciw/node.py', "            waiting_time=individual.service_start_date - individual.arrival_date,\n            service_start_date=individual.service_start_date,\n            service_time=individual.service_end_date - individual.service_start_date,\n",
+                               "            waiting_time=individual.service_start_date - individual.arrival_date + (1e-6 if individual.id_number % 6 == 0 else 0),\n            service_start_date=individual.service_start_date,\n            service_time=individual.service_end_date - individual.service_start_date,\n"),
+ ('H44', 'C04', 'ciw/node.py', "        for i in range(num_servers):\n", "        for i in range(num_servers + (1 if num_servers > 2 else 0)):\n"),
+ ('H45', 'C01', 'ciw/exit_node.py', "        self.number_of_individuals += 1\n", "        self.number_of_individuals += 1 if next_individual.id_number % 13 else 2\n"),
+ ('H46', 'C03', 'ciw/node.py', "        reneging_individual.destination = next_node.id_number\n", "        reneging_individual.destination = False\n"),
+ ('H47', 'C13', 'ciw/node.py', "        self.reset_individual_attributes(reneging_individual)\n        self.simulation.statetracker.change_state_renege(self, next_node, reneging_individual, False)\n        next_node.accept(reneging_individual, completed=False)\n",
+                               "        self.reset_individual_attributes(reneging_individual)\n        self.simulation.statetracker.change_state_renege(self, next_node, reneging_individual, False)\n        (self.simulation.nodes[-1] if reneging_individual.id_number % 4 == 0 else next_node).accept(reneging_individual, completed=False)\n"),
+ ('H48', 'C06', 'ciw/arrival_node.py', "            self.record_rejection(next_node, next_individual)\n            self.simulation.nodes[-1].accept(next_individual, completed=False)\n",
+                                       "            self.record_rejection(next_node, next_individual)\n            (self.simulation.nodes[-1] if next_individual.id_number % 3 else next_node).accept(next_individual, completed=False)\n"),
+ ('H49', 'C09', 'ciw/node.py', "            individual.priority_class = self.simulation.network.priority_class_mapping[individual.customer_class]\n            self.simulation.statetracker.change_state_classchange(self, individual)\n",
+                               "            individual.priority_class = self.simulation.network.priority_class_mapping[individual.previous_class]\n            self.simulation.statetracker.change_state_classchange(self, individual)\n"),
 ]
 
 
